@@ -110,6 +110,10 @@ sfd_tran_pipe_stop(void *arg)
 	nni_aio_stop(&p->rxaio);
 	nni_aio_stop(&p->txaio);
 	nni_aio_stop(&p->negoaio);
+	if (ep == NULL) {
+		// pipe creation failed before the endpoint adopted the pipe
+		return;
+	}
 	nni_mtx_lock(&ep->mtx);
 	nni_list_node_remove(&p->node);
 	nni_mtx_unlock(&ep->mtx);
